@@ -66,6 +66,26 @@ pub fn hash(s: &str) -> HashAlgorithm {
         _ => HashAlgorithm::Sha256,
     }
 }
+/// explicit subpacket areas: "none" = creation time only; "fp" = + issuer fingerprint (hashed);
+/// "keyid" = + issuer key id (unhashed; v4 keys only, v6 keys get "fp"); anything else = library default
+pub fn subpacket_config(which: &str, k: &keys::PoolKey) -> pgp::composed::SubpacketConfig {
+    use pgp::packet::{Subpacket, SubpacketData};
+    use pgp::types::KeyDetails;
+    let created = || Subpacket::regular(SubpacketData::SignatureCreationTime(pgp::types::Timestamp::now())).expect("subpacket");
+    match (which, k.v6) {
+        ("none", _) => pgp::composed::SubpacketConfig::UserDefined { hashed: vec![created()], unhashed: vec![] },
+        ("fp", _) | ("keyid", true) => pgp::composed::SubpacketConfig::UserDefined {
+            hashed: vec![created(), Subpacket::regular(SubpacketData::IssuerFingerprint(k.secret.fingerprint())).expect("subpacket")],
+            unhashed: vec![],
+        },
+        ("keyid", false) => pgp::composed::SubpacketConfig::UserDefined {
+            hashed: vec![created()],
+            unhashed: vec![Subpacket::regular(SubpacketData::IssuerKeyId(k.secret.legacy_key_id())).expect("subpacket")],
+        },
+        _ => pgp::composed::SubpacketConfig::Default,
+    }
+}
+
 pub fn compression(s: &str) -> Option<CompressionAlgorithm> {
     match s {
         "zip" => Some(CompressionAlgorithm::ZIP),
@@ -162,7 +182,10 @@ fn configure<'a, R: Read, W: Write>(
     if let Some(signers) = cfg.get("signers").and_then(|s| s.as_array()) {
         for s in signers {
             let k = keys::get(jstr(s, "key"));
-            b.sign(&*k.secret, Password::from(k.password), hash(jstr(s, "hash")));
+            match jstr(s, "subpackets") {
+                "" | "default" => b.sign(&*k.secret, Password::from(k.password), hash(jstr(s, "hash"))),
+                which => b.sign_with_subpackets(&*k.secret, Password::from(k.password), hash(jstr(s, "hash")), subpacket_config(which, k)),
+            };
         }
     }
     let enc = cfg.get("enc").cloned().unwrap_or(json!({"k":"none"}));
@@ -416,6 +439,9 @@ pub fn read_message<R: BufRead + std::fmt::Debug + Send>(input: R, spec: &ReadSp
         Err(e) => {
             out.end = Err(format!("{:?}: {e}", e.kind()));
             out.stage = "read";
+            if std::env::var("VERIF_DEBUG").is_ok() {
+                eprintln!("read_message: read error {:?}", out.end);
+            }
             if spec.opts & 4 != 0 {
                 // a caller is free to call again after an error: the reader must answer (anything), not panic
                 let mut n = 0usize;
@@ -451,11 +477,21 @@ pub fn read_message<R: BufRead + std::fmt::Debug + Send>(input: R, spec: &ReadSp
     if let Message::Signed { reader, .. } = &msg {
         out.num_signatures = reader.num_signatures();
     }
+    if std::env::var("VERIF_DEBUG").is_ok() {
+        eprintln!("read_message: clean end, {} bytes, {} signatures", out.data.len(), out.num_signatures);
+    }
     // signer j is "verified" if some embedded signature verifies under its public key
     for name in spec.verifiers.iter() {
         let k = keys::get(name);
         let ok = (0..out.num_signatures).any(|i| msg.verify_nested_explicit(i, &k.public).is_ok());
         out.verdicts.push(ok);
+    }
+    // (the batch entry point is exercised too; its verdicts are the same per-signature checks)
+    {
+        let publics: Vec<&dyn pgp::types::VerifyingKey> = spec.verifiers.iter().map(|n| &keys::get(n).public as &dyn pgp::types::VerifyingKey).collect();
+        if !publics.is_empty() {
+            let _ = msg.verify_nested(&publics);
+        }
     }
     // and every embedded signature must verify under some expected signer
     out.sigs_all_attributed = (0..out.num_signatures)
